@@ -538,7 +538,11 @@ impl<'a> Model<'a> {
         if sheet_index >= sheet_count {
             return Err("Sheet index too large".to_string());
         };
-        self.workbook.worksheets.remove(sheet_index as usize);
+        let removed = self.workbook.worksheets.remove(sheet_index as usize);
+        // the names that were local to the sheet go with it
+        self.workbook
+            .defined_names
+            .retain(|name| name.sheet_id != Some(removed.sheet_id));
         self.reset_parsed_structures();
         Ok(())
     }
